@@ -32,6 +32,8 @@ type Engine struct {
 	globals     map[*types.Var]*ssa.Global
 	typeCache   map[string]types.Type
 	msUnit      *Unit
+	computingMS bool
+	knownGhostTypes map[string]types.Type // ghost arrays (Ref -> value) written by own functions: name -> element type
 	keyInfos    map[string]keyInfo
 	tparams     map[string]types.Type // type parameter names of the function being verified
 	frameSet    map[string]bool       // functions whose frame is checked by their own unit in this run
@@ -482,10 +484,28 @@ func (e *Engine) computeModsets() {
 				case *ssa.MakeClosure:
 					if cf, ok := x.Fn.(*ssa.Function); ok {
 						add(cf)
-						callees[f] = append(callees[f], cf)
+						// a closure that is only ever the operand of a go statement runs on another goroutine: its
+						// writes are not effects of this function's own (sequential) execution
+						onlySpawned := x.Referrers() != nil && len(*x.Referrers()) > 0
+						if onlySpawned {
+							for _, r := range *x.Referrers() {
+								if g, ok := r.(*ssa.Go); !ok || g.Call.Value != ssa.Value(x) {
+									onlySpawned = false
+								}
+							}
+						}
+						if !onlySpawned {
+							callees[f] = append(callees[f], cf)
+						}
 					}
 				case *ssa.Send:
 					ms.ghosts["sends"] = true
+					lsrt := u.w.sortOf(x.X.Type())
+					ms.ghosts["lastsent:"+sortShort(lsrt)] = true
+					if e.knownGhostTypes == nil {
+						e.knownGhostTypes = map[string]types.Type{}
+					}
+					e.knownGhostTypes["lastsent:"+sortShort(lsrt)] = x.X.Type()
 				case ssa.CallInstruction:
 					c := x.Common()
 					if bi, ok := c.Value.(*ssa.Builtin); ok {
@@ -777,9 +797,23 @@ type VerifyOpts struct {
 }
 
 func (e *Engine) newUnit(fn *ssa.Function) *Unit {
+	if e.modsets == nil && e.msUnit == nil && !e.computingMS && fn != nil {
+		e.computingMS = true
+		e.computeModsets()
+		e.computingMS = false
+	}
 	u := &Unit{eng: e, w: newWorld(), fun: fn, name: unitName(fn), oblCount: map[string]int{}, heapSorts: map[string]string{}, heapElem: map[string]types.Type{},
 		hver: map[string]*heapVersion{}, frameDone: map[string]bool{}, ghostSort: map[string]string{}, notes: map[string]bool{}, inlined: map[string]bool{},
 		usedSpecs: map[string]bool{}, usedStd: map[string]bool{}, usedPure: map[string]bool{}, implIfaces: map[string]types.Type{}, assume: map[string]bool{}, usedContracts: map[string]bool{}, sliceConstLen: map[string]int{}, usedInvs: map[string]bool{}, hparents: map[string][]string{}, qsorts: map[string]string{}, ospecDone: map[string]bool{}}
+	// ghost variables that callees may write must have a sort before the first call that havocs them
+	u.ghostSort["closed"] = "(Array Ref Bool)"
+	u.ghostSort["sends"] = "(Array Ref Int)"
+	u.ghostSort["out"] = "(Array Ref Str)"
+	if e.msUnit != nil && e.msUnit != u {
+		for name, t := range e.knownGhostTypes {
+			u.ghostSort[name] = fmt.Sprintf("(Array Ref %s)", u.w.sortOf(t))
+		}
+	}
 	return u
 }
 
@@ -876,6 +910,16 @@ func (e *Engine) verify(fn *ssa.Function, opts VerifyOpts) (u *Unit) {
 			u.fact(f)
 		}
 		fr.ctVars[fv.Name()] = v
+		// go/ssa captures variables by reference: the free variable is the address of the variable's cell. In
+		// contracts the source name means the variable, not its cell; the cell itself exists.
+		if _, isPtr := fv.Type().Underlying().(*types.Pointer); isPtr {
+			u.fact(fmt.Sprintf("(distinct %s nil)", n))
+			delete(fr.ctVars, fv.Name())
+			if fr.ctCells == nil {
+				fr.ctCells = map[string]*Val{}
+			}
+			fr.ctCells[fv.Name()] = v
+		}
 		_ = i
 	}
 	fr.entry = st
